@@ -168,6 +168,7 @@ def _run_task(task):
                 info = unit.check(case)
             except Violation as v:
                 state["viol"] = v
+                state["viol_case"] = case
                 raise
             acc.note(case, info)
 
@@ -199,6 +200,17 @@ def _run_task(task):
             except Violation as v:
                 res.update(status="violation", case=tagjson.enc(state["case"]),
                            msg=v.msg, bucket=v.bucket)
+            except hypothesis.errors.Flaky as e:
+                # The oracle is a pure function of the case, so a failure that does not reproduce when the
+                # same case is run again means the code under test answered differently the second time:
+                # its verdict depended on earlier calls.  The recorded violation was really observed.
+                v = state["viol"]
+                if v is not None:
+                    res.update(status="violation", case=tagjson.enc(state.get("viol_case", state["case"])),
+                               msg=v.msg + "  [the same case gave a different outcome when run again in the "
+                               "same process: the verdict depends on earlier calls]", bucket=v.bucket)
+                else:
+                    res.update(status="error", msg="flaky without a recorded violation: %s" % e)
             except hypothesis.errors.FailedHealthCheck as e:
                 res.update(status="inconclusive", msg="health check: %s" % e)
             except hypothesis.errors.Unsatisfiable as e:
